@@ -85,7 +85,7 @@ def rule_k1(chk: Check, F, thorough: bool):
                     f"the body pattern for {q} strings can stop at two different places ({pf}): which one is taken depends on regex "
                     f"priorities, not on the language" if pf else "")
     # prefixes
-    mine = set(F.ns["_all_string_prefixes"]())
+    mine = set(constfold.string_prefix_set())
     ref = set(pytokenize._all_string_prefixes())
     extra = mine - ref
     chk.count("K1-string-prefix")
